@@ -9,7 +9,8 @@ EXPLANATION = ("TermFlow term identities on the iteration code: (O1) the per-chu
                "starts at the current chunk footer (newest first) and the safe iterator builds its slice from the same pair in the same order; (R3) the safe iterator takes "
                "&mut self; (R4) 'no foreign bytes': every finger store anywhere in the arena is of class BUMP/RECLAIM/SAVED/EMPTY with the reclaim bounded by the released block "
                "(a FULL or over-reclaiming store is what makes phantom or missing bytes appear in the slices), and a BUMP store moves the finger by exactly the rounded size below "
-               "the (aligned) old finger, so uniform histories leave no padding.")
+               "the (aligned) old finger, so uniform histories leave no padding."
+               ' (R5, R6) because the exactness clause quantifies over histories with resets and failed fallible initialisers, the reset obligations of C06 and the no-residue obligations of C11 are evaluated as part of this property.')
 RULE = "rule instance = (rule, function/site); distinct by (rule, function, site)"
 
 
